@@ -4,6 +4,7 @@ import sys
 
 PROPERTY_MODULES = {
     "C01": ["contracts.c01"],
+    "C10": ["contracts.c10"],
 }
 
 
